@@ -7,9 +7,10 @@ package smtp
 
 // ---- C16: reply conversion at the endpoint ----
 //@ pure func plainSMTP(e error) bool = isType(e, "*gosmtp.SMTPError")
+//@ import prometheus "github.com/prometheus/client_golang/prometheus"
 //@ func (*Endpoint).wrapErr
-//@   prop C16
-//@   modifies *
+//@   prop C16 C03
+//@   modifies prometheus.CounterVec.MetricVec
 //@   ensures err == nil ==> result == nil
 //@   ensures err != nil ==> isType(result, "*gosmtp.SMTPError") && as(result, "*gosmtp.SMTPError") != nil
 //@   ensures err != nil ==> coherent(as(result, "*gosmtp.SMTPError").Code, as(result, "*gosmtp.SMTPError").EnhancedCode)
@@ -28,14 +29,195 @@ package smtp
 // A submission is accepted only with a From field that parses; several author addresses require a Sender field;
 // a Sender field must parse.
 // Helpers of submissionPrepare: a random Message-ID, the clock and a date parser (no effect on tracked state; assumed).
-//@ extern func msgIDField() (id string, err error)
+//@ extern func msgIDField$var() (id string, err error)
 //@ extern func now$var() time.Time
 //@ extern func parseMessageDateTime(maybeDate string) (t time.Time, err error)
 //@ func (*Session).submissionPrepare
-//@   prop C15
-//@   modifies *
+//@   prop C15 C03
+//@   modifies *header, msgMeta.DontTraceSender
 //@   requires s != nil && header != nil && msgMeta != nil
 //@   ensures result == nil ==> hdrGet(*header, "From") != "" && addrListErr(hdrGet(*header, "From")) == nil
 //@   ensures result == nil && len(addrList(hdrGet(*header, "From"))) > 1 ==> hdrGet(*header, "Sender") != ""
 //@   ensures result == nil && hdrGet(*header, "Sender") != "" ==> addrOneErr(hdrGet(*header, "Sender")) == nil
 //@   loop 0 invariant rangeindex >= 0 ==> (hdrGet(*header, "Sender") != "" ==> addrOneErr(hdrGet(*header, "Sender")) == nil)
+
+// ---- C03: every transaction is finalised exactly once; every permit is returned ----
+//@ import module "github.com/foxcpp/maddy/framework/module"
+//@ import limits "github.com/foxcpp/maddy/internal/limits"
+// The session treats its pipeline through the delivery interface contract (typestate ghosts gOpen / gCommitted of
+// framework/module): Start opens a new delivery; AddRcpt/Body/BodyNonAtomic need an open one; Commit and Abort close it.
+// Permits: gPermit counts the message permits this session holds (TakeMsg succeeded, ReleaseMsg not yet called);
+// gTakeIP / gTakeDom are the keys of the last successful TakeMsg. The two limits calls are specialised for the
+// session (assumed; consistent with the contracts proved for limits.Group under C11: a release under the keys of
+// the take returns exactly what was taken): a release is only allowed while a permit is held and under the same keys.
+//@ ghost var gPermit int
+//@ ghost var gTakeIP string
+//@ ghost var gTakeDom string
+//@ uninterp func ipv4Str(a byte, b byte, c byte, d byte) string
+//@ extern func net.IPv4(a byte, b byte, c byte, d byte) net.IP
+//@   ensures ipStr(result) == ipv4Str(a, b, c, d)
+//@ pure func remoteIPStr(a net.Addr) string = isType(a, "*net.TCPAddr") ? ipStr(as(a, "*net.TCPAddr").IP) : ipv4Str(127, 0, 0, 1)
+//@ extern func (*Session).startDelivery#TakeMsg$call(g *limits.Group, ctx context.Context, addr net.IP, sourceDomain string) error
+//@   modifies gPermit, gTakeIP, gTakeDom
+//@   ensures result == nil ==> gPermit == old(gPermit) + 1 && gTakeIP == ipStr(addr) && gTakeDom == sourceDomain
+//@   ensures result != nil ==> gPermit == old(gPermit) && gTakeIP == old(gTakeIP) && gTakeDom == old(gTakeDom)
+//@ extern func (*Session).startDelivery#ReleaseMsg$call(g *limits.Group, addr net.IP, sourceDomain string)
+//@   requires gPermit > 0 && ipStr(addr) == gTakeIP && sourceDomain == gTakeDom
+//@   modifies gPermit
+//@   ensures gPermit == old(gPermit) - 1
+//@ extern func (*Session).releaseLimits#ReleaseMsg$call(g *limits.Group, addr net.IP, sourceDomain string)
+//@   requires gPermit > 0 && ipStr(addr) == gTakeIP && sourceDomain == gTakeDom
+//@   modifies gPermit
+//@   ensures gPermit == old(gPermit) - 1
+// The keys releaseLimits will use for the current transaction are the keys the permit was taken under.
+//@ pure func txKeysOK(s *Session) bool = s.msgMeta != nil && s.msgMeta.Conn != nil && remoteIPStr(s.msgMeta.Conn.RemoteAddr) == gTakeIP && (s.mailFrom == "" ? gTakeDom == "" : (splitOK(s.mailFrom) && splitDom(s.mailFrom) == gTakeDom))
+// Session invariant: the delivery the session holds is open, its metadata is present, and the session holds exactly
+// one message permit (under the keys it will release) while it holds a delivery and none otherwise.
+//@ pure func sInv(s *Session) bool = s != nil && s.endp != nil && s.endp.pipeline != nil && s.endp.limits != nil && (s.delivery != nil ==> gOpen[refOf(s.delivery)] && !gCommitted[refOf(s.delivery)] && txKeysOK(s) && gPermit == 1) && (s.delivery == nil ==> gPermit == 0)
+// closedOnly(d): the call closed d (if any) and changed the open/closed state of no other delivery.
+//@ pure func closedOnly(d module.Delivery) bool = (d == nil ==> gOpen == old(gOpen)) && (d != nil ==> gOpen == store(old(gOpen), refOf(d), false))
+// cmtSame(d): the committed status of every delivery other than d is unchanged.
+//@ pure func cmtSame(d module.Delivery) bool = forall x ref :: (d == nil || x != refOf(d)) ==> gCommitted[x] == old(gCommitted)[x]
+//@ extern func (*Session).startDelivery#Start$call(d *msgpipeline.MsgPipeline, ctx context.Context, msgMeta *module.MsgMetadata, mailFrom string) (dl module.Delivery, err error)
+//@   modifies gOpen, gAcc, gBodyErr, gCommitted, gCommitFailed
+//@   ensures err == nil ==> dl != nil && !old(gOpen)[refOf(dl)] && gOpen == store(old(gOpen), refOf(dl), true) && !gCommitted[refOf(dl)]
+//@   ensures err == nil ==> (forall x ref :: x != refOf(dl) ==> gCommitted[x] == old(gCommitted)[x])
+//@   ensures err != nil ==> gOpen == old(gOpen) && gCommitted == old(gCommitted)
+// Helpers without effect on the state the contracts talk about (assumed): the rDNS cancel function, the session
+// counter, tracing tasks, message-id generation.
+//@ extern func (Session).cancelRDNS$field()
+//@ extern func (*sync/atomic.Int32).Add(x *atomic.Int32, delta int32) int32
+// releaseLimits returns the permit of the current transaction, under the keys it was taken with.
+//@ func (*Session).releaseLimits
+//@   prop C03
+//@   requires s != nil && s.endp != nil && s.endp.limits != nil && gPermit == 1 && txKeysOK(s)
+//@   modifies gPermit
+//@   ensures gPermit == 0
+// cleanSession forgets the delivery: it must have been closed before (an open delivery is never dropped).
+//@ func (*Session).cleanSession
+//@   prop C03
+//@   requires s != nil && s.endp != nil && s.endp.limits != nil && gPermit == 1 && txKeysOK(s)
+//@   requires s.delivery == nil || !gOpen[refOf(s.delivery)]
+//@   modifies s.mailFrom, s.opts, s.msgMeta, s.delivery, s.deliveryErr, s.msgCtx, gPermit
+//@   ensures s.delivery == nil && s.msgMeta == nil && gPermit == 0
+//@ func (*Session).abort
+//@   prop C03
+//@   modifies *
+//@   requires sInv(s) && s.delivery != nil
+//@   ensures sInv(s) && s.delivery == nil && closedOnly(old(s.delivery)) && gCommitted == old(gCommitted)
+//@ func (*Session).Reset
+//@   prop C03
+//@   modifies *
+//@   requires sInv(s)
+//@   ensures sInv(s) && s.delivery == nil && closedOnly(old(s.delivery)) && gCommitted == old(gCommitted)
+//@ func (*Session).Logout
+//@   prop C03
+//@   modifies *
+//@   requires sInv(s)
+//@   ensures sInv(s) && s.delivery == nil && closedOnly(old(s.delivery)) && gCommitted == old(gCommitted)
+// startDelivery opens the transaction's delivery and takes its permit; it is only called when the session holds
+// none; on failure nothing is open and no permit is held.
+//@ func (*Session).startDelivery
+//@   prop C03
+//@   modifies *
+//@   requires sInv(s) && s.delivery == nil
+//@   ensures s.endp == old(s.endp) && s.endp.pipeline != nil && s.endp.limits != nil
+//@   ensures s.delivery != nil ==> gOpen[refOf(s.delivery)]
+//@   ensures s.delivery != nil ==> gPermit == 1
+//@   ensures s.delivery != nil ==> s.msgMeta != nil && s.msgMeta.Conn != nil
+//@   ensures s.delivery != nil ==> remoteIPStr(s.msgMeta.Conn.RemoteAddr) == gTakeIP
+//@   ensures s.delivery != nil ==> (s.mailFrom == "" ? gTakeDom == "" : (splitOK(s.mailFrom) && splitDom(s.mailFrom) == gTakeDom))
+//@   ensures s.delivery == nil ==> gPermit == 0
+//@   ensures cmtSame(s.delivery) && (s.delivery != nil ==> !gCommitted[refOf(s.delivery)])
+//@   ensures result1 == nil ==> s.delivery != nil && !old(gOpen)[refOf(s.delivery)] && gOpen == store(old(gOpen), refOf(s.delivery), true)
+//@   ensures result1 != nil ==> s.delivery == nil && gOpen == old(gOpen)
+//@   assert-store delivery : $obj == s && ($old == nil || !gOpen[refOf($old)])
+//@ func (*Session).Mail
+//@   prop C03
+//@   modifies *
+//@   requires sInv(s) && opts != nil
+//@   ensures sInv(s)
+//@   ensures cmtSame(s.delivery)
+//@   ensures forall x ref :: old(gOpen)[x] && (s.delivery == nil || x != refOf(s.delivery)) && (old(s.delivery) == nil || x != refOf(old(s.delivery))) ==> gOpen[x]
+//@   ensures old(s.delivery) != nil && (s.delivery == nil || refOf(s.delivery) != refOf(old(s.delivery))) ==> !gOpen[refOf(old(s.delivery))]
+//@ func (*Session).rcpt
+//@   prop C03
+//@   modifies gAcc
+//@   requires sInv(s) && s.delivery != nil && opts != nil
+//@ func (*Session).Rcpt
+//@   prop C03
+//@   modifies *
+//@   requires sInv(s) && opts != nil
+//@   ensures sInv(s)
+//@   ensures cmtSame(s.delivery)
+//@   ensures old(s.delivery) != nil ==> s.delivery == old(s.delivery) && gOpen == old(gOpen) && gCommitted == old(gCommitted)
+//@   ensures old(s.delivery) == nil && s.delivery != nil ==> gOpen == store(old(gOpen), refOf(s.delivery), true) && !old(gOpen)[refOf(s.delivery)]
+//@   ensures old(s.delivery) == nil && s.delivery == nil ==> gOpen == old(gOpen)
+
+// DATA. prepareBody reads the header and buffers the body: nothing of the transaction state changes.
+//@ extern func (Endpoint).buffer$field(r io.Reader) (b buffer.Buffer, err error)
+//@   ensures err == nil ==> b != nil
+//@ extern func (buffer.Buffer).Remove(b buffer.Buffer) error
+//@ func limitReader
+//@   prop C03
+//@   ensures result != nil && fresh(result)
+//@ func (*Session).prepareBody
+//@   prop C03
+//@   requires s != nil && s.endp != nil && s.msgMeta != nil
+//@   modifies s.msgMeta.DontTraceSender
+//@   ensures result2 == nil ==> result1 != nil
+//@ func (*Session).checkRoutingLoops
+//@   prop C03
+//@   requires s != nil && s.endp != nil
+// The error wrapper of Data / LMTPData only builds the reply.
+//@ func (*Session).Data$1
+//@   prop C03
+//@   requires s != nil && s.endp != nil && s.msgMeta != nil && err != nil
+//@   modifies prometheus.CounterVec.MetricVec
+//@   ensures result != nil
+//@ func (*Session).LMTPData$1
+//@   prop C03
+//@   requires s != nil && s.endp != nil && s.msgMeta != nil && err != nil
+//@   modifies prometheus.CounterVec.MetricVec
+//@   ensures result != nil
+// The deferred clean-up of Data / LMTPData: a delivery whose Commit was not attempted is aborted; in either case it
+// is closed when the session forgets it, and the permit is returned.
+//@ func (*Session).Data$2
+//@   prop C03
+//@   modifies *
+//@   requires s != nil && s.endp != nil && s.endp.pipeline != nil && s.endp.limits != nil && s.delivery != nil && buf != nil && gPermit == 1 && txKeysOK(s)
+//@   requires commitAttempted ? !gOpen[refOf(s.delivery)] : (gOpen[refOf(s.delivery)] && !gCommitted[refOf(s.delivery)])
+//@   ensures s.delivery == nil && gPermit == 0 && closedOnly(old(s.delivery)) && gCommitted == old(gCommitted)
+//@   ensures s.endp != nil && s.endp.pipeline != nil && s.endp.limits != nil
+//@ func (*Session).LMTPData$2
+//@   prop C03
+//@   modifies *
+//@   requires s != nil && s.endp != nil && s.endp.pipeline != nil && s.endp.limits != nil && s.delivery != nil && buf != nil && gPermit == 1 && txKeysOK(s)
+//@   requires commitAttempted ? !gOpen[refOf(s.delivery)] : (gOpen[refOf(s.delivery)] && !gCommitted[refOf(s.delivery)])
+//@   ensures s.delivery == nil && gPermit == 0 && closedOnly(old(s.delivery)) && gCommitted == old(gCommitted)
+//@   ensures s.endp != nil && s.endp.pipeline != nil && s.endp.limits != nil
+// Data: a success reply means the delivery was committed; a failure reply means it was not; in both cases the delivery
+// was closed exactly once and forgotten, and the permit returned - except when the header could not be read, where
+// the transaction stays as it was (go-smtp then issues RSET, which aborts it).
+//@ func (*Session).Data
+//@   prop C03
+//@   modifies *
+//@   requires sInv(s) && s.delivery != nil
+//@   ensures sInv(s)
+//@   ensures result == nil ==> s.delivery == nil
+//@   ensures result == nil ==> gCommitted[refOf(old(s.delivery))]
+//@   ensures result == nil ==> closedOnly(old(s.delivery))
+//@   ensures result != nil ==> !gCommitted[refOf(old(s.delivery))]
+//@   ensures result != nil ==> (s.delivery == nil && closedOnly(old(s.delivery))) || (s.delivery == old(s.delivery) && gOpen == old(gOpen))
+//@   ensures cmtSame(old(s.delivery))
+//@ func (*Session).LMTPData
+//@   prop C03
+//@   modifies *
+//@   requires sInv(s) && s.delivery != nil && isType(s.delivery, "*msgpipeline.msgpipelineDelivery")
+//@   ensures sInv(s)
+//@   ensures result == nil ==> s.delivery == nil
+//@   ensures result == nil ==> gCommitted[refOf(old(s.delivery))]
+//@   ensures result == nil ==> closedOnly(old(s.delivery))
+//@   ensures result != nil ==> !gCommitted[refOf(old(s.delivery))]
+//@   ensures result != nil ==> (s.delivery == nil && closedOnly(old(s.delivery))) || (s.delivery == old(s.delivery) && gOpen == old(gOpen))
+//@   ensures cmtSame(old(s.delivery))
